@@ -2782,6 +2782,13 @@ where
 
             inp.errors.alt = old_alt;
             inp.add_alt_err(&new_alt.pos, new_alt.err);
+        } else {
+            // Reinsert the original alt and apply whatever the inner parser left pending on top of it
+            let new_alt = inp.take_alt();
+            inp.errors.alt = old_alt;
+            if let Some(new_alt) = new_alt {
+                inp.add_alt_err(&new_alt.pos, new_alt.err);
+            }
         }
 
         res
